@@ -788,7 +788,7 @@ FILE_DERIVED = {'TOUGH2/8/OUTFILE': ('final-primary', 'late-primary'),
                 'AUTOUGH2/4/case4.listing': ('mid-connection',)}
 FILE_DERIVED_THOROUGH = {'TOUGH2/2/rfp.listing': ('shortfirst-generation', 'mid-generation', 'keep-2', 'keep-1'),
                          'TOUGH2/7/case7.out': ('shortfirst-generation',),
-                         'TOUGH2/11/case11.listing': ('shortfirst-generation', 'mid-generation', 'mid-connection', 'keep-2'),
+                         'TOUGH2/11/case11.listing': ('shortfirst-generation', 'keep-2'),      # (its tables are not closed by separator lines: no table removal)
                          'TOUGH2-MP/6/OUTPUT_DATA': ('mid-connection', 'keep-3'),
                          'TOUGHREACT/1/case1.out': ('shortfirst-generation',),
                          'TOUGH3/2/OUTPUT': ('keep-1',),
